@@ -81,6 +81,8 @@ impl AsRef<[u8]> for PooledChunk {
 
 impl Drop for PooledChunk {
   fn drop(&mut self) {
+    #[cfg(rzmq_verif)]
+    crate::verif::uring::recv_chunk(-1);
     self.pool.release(std::mem::take(&mut self.buf));
   }
 }
@@ -205,6 +207,8 @@ impl ProvidedBufferRing {
       entry.set_bid(bid);
     }
     self.slots.borrow_mut()[bid as usize] = Some(buf);
+    #[cfg(rzmq_verif)]
+    crate::verif::uring::recv_ring(self.slots.borrow().iter().filter(|s| s.is_some()).count(), self.entry_count as usize);
     let new_tail = tail.wrapping_add(1);
     self.local_tail.set(new_tail);
     // SAFETY: ring_ptr is the valid first entry of the registered ring; the tail field
@@ -237,6 +241,8 @@ impl ProvidedBufferRing {
         ))
       })?;
     self.provide(bid, self.pool.acquire());
+    #[cfg(rzmq_verif)]
+    crate::verif::uring::recv_chunk(1);
     let chunk = PooledChunk {
       buf,
       filled,
